@@ -54,6 +54,14 @@ func Worker17(cfg Config) *evid.Stats {
 		st.Trouble = append(st.Trouble, "C17 needs the instrumented scratch copy (verifsim.NSites == 0)")
 		return st
 	}
+	VisitedSites = make([]bool, verifsim.NSites)
+	defer func() {
+		for i, v := range VisitedSites {
+			if v {
+				st.Sites = append(st.Sites, int32(i))
+			}
+		}
+	}()
 	rn := &runner{cfg: cfg, st: st, rc: &refCache{m: map[uint64]*refResult{}}, vcap: 4, pristineEvery: 200}
 	lib := newLibrary(cfg.RepoDir)
 	st.Probes["yield_sites_in_build"] = int64(verifsim.NSites)
